@@ -1850,7 +1850,44 @@ pub fn generate(check: &str, tier: Tier, base_seed: u64, k: u64) -> Scenario {
                 many_apps: false,
             };
             let (mut w, mut o) = ring_world(&mut r, tier, &o);
-            let f = ring_faults(&mut r, &mut w, &mut o, tier);
+            let mut f = ring_faults(&mut r, &mut w, &mut o, tier);
+            // (clock jumps are C05's business: C06 speaks of damaged or lost telegrams, collisions
+            // and stations that stop, restart or go offline)
+            f.retain(|x| !matches!(x.kind, FaultKind::ClockJump { .. }));
+            // Symmetric pair: two stations polled with the same exact period, the same GAP factor,
+            // no jitter and no skew, and a damaged / truncated token or first telegram.  Whatever
+            // both stations do in answer to one common event they do in lock-step; if that is
+            // transmitting, they never hear each other again (F18).
+            if w.stations.len() == 2 && r.chance(1, 2) {
+                let p = w.stations[0].p_max_us.min(w.stations[1].p_max_us).max(1);
+                let g = w.stations[0].gap;
+                for s in w.stations.iter_mut() {
+                    s.p_min_us = p;
+                    s.p_max_us = p;
+                    s.gap = g;
+                    s.skew_ppm = 0;
+                    s.dup_poll_pm = 0;
+                    s.apps.clear();
+                    // cold start together: the address-staggered time-outs keep the claims apart
+                    // (the simultaneous claim of exactly synchronous stations is known finding F20)
+                    if let Some(first) = s.plan.first_mut() {
+                        first.0 = 0;
+                    }
+                }
+                f.retain(|x| !matches!(x.kind, FaultKind::Storm { .. } | FaultKind::Crash { .. } | FaultKind::GoOffline { .. } | FaultKind::GoOnline { .. }));
+                let tslot_us = bit_us(w.baud, u64::from(w.stations[0].slot_bits)).max(1);
+                let t1 = w.fault_deadline_us.saturating_sub(250 * tslot_us).max(1);
+                for _ in 0..r.range(1, 3) {
+                    let kind = match r.below(4) {
+                        0 => FaultKind::Truncate { keep: r.range(1, 2) as u16 },
+                        1 => FaultKind::BitFlip { byte: 0, bit: r.below(8) as u8 },
+                        2 => FaultKind::Subst { byte: 0, val: r.byte() },
+                        _ => FaultKind::Truncate { keep: r.range(1, 5) as u16 },
+                    };
+                    let _ = t1;
+                    f.push(Fault { trig: Trigger::NthTx { n: r.range(20, 400) as u32, class: if r.chance(2, 3) { TxClass::Token } else { TxClass::FromReal } }, kind, delay_us: 0 });
+                }
+            }
             (w, o, f)
         }
         "C13" | "C15" => {
